@@ -24,6 +24,7 @@ WITNESS = [
     (r"uci_moves::Bitboard::san_suffix_fragment", "board", "inkayaku_board", "c05_check_detection.rs", "witness_c05_san"),
     (r"board_make::(Move::|Bitboard::)", "board", "inkayaku_board", "c03_make_unmake.rs", "witness_"),
     (r"Bitboard::(find_uci|make_uci|make_all_uci)", "board", "inkayaku_board", "c13_rejected_move.rs", "witness_find_uci|witness_make_uci"),
+    (r"fen_import::", "board", "inkayaku_board", "c01_legal_moves.rs", "witness_c01"),
     (r"movegen::Bitboard::(make_move|make_castle_move)", "board", "inkayaku_board", "c03_make_unmake.rs", "witness_"),
     (r"movegen::", "board", "inkayaku_board", "c01_legal_moves.rs", "witness_c01"),
     (r"uci_moves::Bitboard::(is_move_legal|is_any_move_legal)", "board", "inkayaku_board", "c13_rejected_move.rs", "witness_is_move_legal"),
